@@ -396,7 +396,112 @@ def r4_bencode_bounds_discipline(ctx):
     ctx.ob("C19.R4", f"{BEN}::decode-all::stop at the nil marker, return the remainder", BEN, da.line, ok, "" if ok else "decode-all does not stop at the first undecodable item or does not return the untouched remainder")
 
 
+@rule("C19.R7", floor=6)
+def r7_edn_token_terminators_agree_with_the_lisp_reader(ctx):
+    """The EDN writer prints symbols and keywords verbatim, and both readers accept a token by the
+    same identifier pattern -- so the two token scanners have to end a token at the same characters.
+    A character that ends a token for the EDN reader but not for the Lisp reader splits a name the
+    writer emits (and the Lisp reader reads whole) into two forms, silently."""
+    defs = L.top_defs(ctx.lisp(EDN))
+    val, d = _def_value(defs, "dispatch-chars", EDN)
+    if not isinstance(val, L.Set) or not all(isinstance(x, L.Str) for x in val.items):
+        raise AnalysisError("edn.lpy::dispatch-chars is not a set of one-character strings")
+    edn_terms = {_unescape(x.val) for x in val.items}
+    rn = defs.get("read-namespaced")
+    if rn is None or not any(L.head(f) == "contains?" and len(f.items) == 3 and f.items[1].text() == "dispatch-chars" for f in L.walk(rn)):
+        raise AnalysisError("edn.lpy::read-namespaced no longer ends a token at dispatch-chars")
+    tree = ctx.py(RD)
+    table = P.module_assign(tree, "_read_dispatch")
+    if not isinstance(table, ast.Dict):
+        raise AnalysisError("anchor vanished: reader._read_dispatch")
+    lisp_terms = {ast.literal_eval(k) for k in table.keys} - {""}
+    fn = ctx.fn(RD, "_read_namespaced")
+    exempt = set()
+    for c in ast.walk(fn):
+        if isinstance(c, ast.Compare) and len(c.ops) == 1 and isinstance(c.ops[0], ast.NotIn) and isinstance(c.comparators[0], ast.Set):
+            exempt |= {ast.literal_eval(e) for e in c.comparators[0].elts}
+    if not any(isinstance(c, ast.Compare) and isinstance(c.ops[0], ast.In) and P.un(c.comparators[0]) == "_read_dispatch" for c in ast.walk(fn)):
+        raise AnalysisError("reader._read_namespaced no longer ends a token at the keys of _read_dispatch")
+    lisp_terms -= exempt
+    for ch in sorted(edn_terms):
+        ok = ch in lisp_terms
+        ctx.ob("C19.R7", f"{EDN}::dispatch-chars::{ch!r} also ends a token for the Lisp reader", EDN, d.line, ok,
+               "" if ok else f"{ch!r} ends a symbol or keyword for the EDN reader only: a name containing it, which the writer prints verbatim and the Lisp reader reads whole, comes back as two forms",
+               witness="(edn/read-string (edn/write-string [:dc:title :x])) => [:dc :title :x]")
+
+
+def _impl_for(forms, type_name):
+    """The to-bencode-encodeable* method body registered for `type_name` in an extend-protocol form."""
+    for top in forms:
+        if L.head(top) != "extend-protocol":
+            continue
+        items = top.items[2:]
+        for i, x in enumerate(items):
+            if isinstance(x, L.Sym) and x.val == type_name:
+                for y in items[i + 1:]:
+                    if isinstance(y, L.List):
+                        return y
+                    break
+    return None
+
+
+@rule("C19.R8", floor=3)
+def r8_bencode_encoders_match_their_types(ctx):
+    """Two encoders are registered for a Python type whose instances are wider than the encoder
+    assumes: the dictionary encoder also serves python/dict, whose iteration yields keys, not
+    entries -- the pairs it destructures have to come from (.items d); the integer encoder also
+    receives booleans (bool is a subclass of int), whose str is True/False -- the digits have to
+    come from the integer value (or booleans get an encoder of their own)."""
+    forms = ctx.lisp(BEN)
+    defs = _ben_defs(ctx)
+    ed = defs.get("encode-dict")
+    if ed is None:
+        raise AnalysisError("anchor vanished: bencode.lpy::encode-dict")
+    serves_dict = any(L.head(f) == "extend" and len(f.items) >= 4 and f.items[1].text() == "python/dict" and "encode-dict" in f.items[3].text() for f in forms)
+    (params, body), = L.fn_arities(ed)[:1]
+    dn = params.items[0].val
+    # where the [k v] pairs come from: the first argument of the threading form / the mapped collection
+    src = None
+    for f in L.walk(ed):
+        if L.head(f) in ("as->", "->>", "->") and len(f.items) > 1:
+            src = f.items[1]
+            break
+    if src is None:
+        raise AnalysisError("encode-dict: the source of the key/value pairs is not of the recognised shape")
+    t = src.text()
+    items_ok = t in (f"(.items {dn})", f"(if (instance? python/dict {dn}) (.items {dn}) {dn})", f"(if (map? {dn}) {dn} (.items {dn}))", f"(seq (.items {dn}))")
+    if not items_ok and t != dn:
+        raise AnalysisError(f"encode-dict: unrecognised pair source `{t}`")
+    ok = items_ok or not serves_dict
+    ctx.ob("C19.R8", f"{BEN}::encode-dict::a python/dict is encoded by its items", BEN, src.line, ok,
+           "" if ok else f"encode-dict is registered for python/dict and destructures [k v] out of `{t}`: iterating a dict yields its keys, so the first two characters of each key are encoded as key and value",
+           witness="(bencode/encode #py {\"ab\" 1}) => d1:a1:be, expected d2:abi1ee")
+    impl = _impl_for(forms, "python/int")
+    if impl is None:
+        raise AnalysisError("anchor vanished: the BEncodeable implementation for python/int")
+    has_bool_impl = _impl_for(forms, "python/bool") is not None
+    this = impl.items[1].items[0].text() if len(impl.items) > 1 and isinstance(impl.items[1], L.Vec) and impl.items[1].items else "this"
+    rendered = [f for f in L.walk(impl) if L.head(f) == "->bytes" and len(f.items) == 2]
+    if not rendered:
+        raise AnalysisError("python/int encoder: the digits are not rendered through ->bytes")
+    ok = has_bool_impl or all(f.items[1].text() != this for f in rendered)
+    ctx.ob("C19.R8", f"{BEN}::python/int encoder::the digits come from the integer value", BEN, impl.line, ok,
+           "" if ok else f"`(->bytes {this})` renders str({this}), which is True / False for a boolean (bool is an int): the message is not bencode, and decode-all keeps it and everything after it as an incomplete remainder",
+           witness="(bencode/encode true) => iTruee")
+    mac = defs.get("->bytes")
+    ok = mac is not None and "python/str" in mac.text() and ".encode" in mac.text()
+    ctx.ob("C19.R8", f"{BEN}::->bytes is str-then-encode", BEN, mac.line if mac is not None else 0, ok, "" if ok else "->bytes no longer renders through python/str: the premise of this rule changed")
+
+
 SELFTEST = [
+    {"name": "EDN tokens end at a colon (the repaired defect)", "file": EDN, "expect": "C19.R7",
+     "old": "  #{\"(\" \")\" \"[\" \"]\" \"{\" \"}\" \"\\\"\" \"\\\\\" \";\"})", "new": "  #{\"(\" \")\" \"[\" \"]\" \"{\" \"}\" \":\" \"\\\"\" \"\\\\\" \";\"})"},
+    {"name": "bencode iterates a python dict itself (the repaired defect)", "file": BEN, "expect": "C19.R8",
+     "old": "  (as-> (if (instance? python/dict d) (.items d) d) $\n", "new": "  (as-> d $\n"},
+    {"name": "twin: bencode always goes through .items", "file": BEN, "expect": None,
+     "old": "  (as-> (if (instance? python/dict d) (.items d) d) $\n", "new": "  (as-> (.items d) $\n"},
+    {"name": "bencode renders a boolean with str (the repaired defect)", "file": BEN, "expect": "C19.R8",
+     "old": "(->bytes (python/int this))", "new": "(->bytes this)"},
     {"name": "JSON array decoder stops recursing", "file": JSON, "expect": "C19.R6",
      "old": "    (->> this (map #(from-decoded-json* % opts)) (vec))))", "new": "    (vec this)))"},
     {"name": "JSON object decoder drops the options on the way down", "file": JSON, "expect": "C19.R6",
